@@ -153,9 +153,11 @@ PROPS = {
         category="other",
         text="BaseClientHandler.command is proved, for every handler outcome (None, False, a string, or No/Bad/TimeoutError/ConnectionResetError/any other exception) to push at most one line carrying the command's tag, after all untagged data, "
              "starting with '<tag> OK|NO|BAD ', ending in CRLF (after the recorded fix), and exactly one such line unless the handler defers its reply (IDLE). "
-             "Two recorded fixes removed the ways a command's outcome was produced by the 120 s watchdog (message set beyond the mailbox; \\Noselect mailbox after restart).",
-        note="Partial: handlers are abstracted (assumption: they push only untagged lines and return/raise as typed); the management task's wake-up obligations, ready_and_okay, the proxy loop's BAD-and-continue and DONE are not under contract - "
-             "promptness is covered only by the bounded oracle (45 commands x restart).",
+             "Mailbox.management_task's loop body is proved to release (ready.set) the command it dequeued on every path that ends an iteration - normal admission and the BAD for an unresolvable message set - "
+             "Mailbox.shutdown to release every command still queued, and Authenticated.do_expunge to restore its pretend-idling flag on every exit, exceptional ones included. "
+             "Recorded fixes removed the ways a command's outcome was produced by the 120 s watchdog (message set beyond the mailbox; \\Noselect mailbox after restart) or by an unhandled exception.",
+        note="Partial: handlers are abstracted (assumption: they push only untagged lines and return/raise as typed); in management_task the preconditions of the resync/pack callees are assumed at their call sites (environment E1) and "
+             "callee exceptions other than Bad between dequeue and release are not modelled; ready_and_okay, the proxy loop's BAD-and-continue and DONE are not under contract. Promptness beyond these wake-up obligations is covered only by the bounded oracle (45 commands x restart).",
         assumptions=["z3/cvc5 sound", "PyVC encoding incl. level-1 strings (DESIGN 2.2)", "every do_<command> pushes only untagged lines (abstraction do_any)", "A-ASYNC"],
         not_decided="liveness (wake-ups) beyond the bounded oracle; unparsable commands in the proxy loop",
     ),
